@@ -45,8 +45,22 @@ def build():
     Unit('cache._check_available_space', CU.u_check_space, [CU.CACHE + '._check_available_space'],
          expect_covers=['check_space/returns', 'check_space/signalled']),
   ] + CL.all_units('C09') + RCV.units()
+  def witness(which):
+    def w():
+      import json
+      from pyvc.runner import run_native
+      rc, out, err = run_native('replay/c09_witnesses.py', [which], timeout=300)
+      for line in out.splitlines():
+        if line.startswith('WITNESS-RESULT '):
+          r = json.loads(line[len('WITNESS-RESULT '):])
+          return bool(r.get('still_fails')), r
+      raise RuntimeError((err or out)[-400:])
+    return w
   return Property(
     'C09', units,
+    finding_labels={'C09/destinationDown/I_bp_relay': 'D8',
+                    'C09/connectionMade/stays_in_step_with_the_pause_flag': 'D7'},
+    findings_witness={'D8': witness('D8'), 'D7': witness('D7')},
     syntactic=[Syntactic('C09/wiring/full_pauses_and_space_resumes', wiring,
                          'service.py registers pause on cacheFull and resume on cacheSpaceAvailable in equal numbers; events.py default handlers keep the two state flags')],
     trusted_base=['A-ENGINE', 'A-SMT', 'A-GIL', 'A-THREADS', 'A-TWISTED-DEFER'],
